@@ -8,6 +8,7 @@ import FV.Model.NetlistStog
     N | T | F | I <int> | D <scalar> | S x<hex of utf-8> | L <n> item* | M <n> (key value)*
   Requests:   <mode> load <eps> <tree>     object rendering + derived quantities, or err:Assert:<which>
               <mode> dump <eps> <tree>     `dumpNetlist` of the loaded netlist, as a tree
+              <mode> eps <tree>            the tolerance a netlist proposes when none is defined: `d<εd> d<εA>` | inf
               <mode> ident S x<hex>        valid_identifier
   <eps> = `U` (tolerance undefined: the netlist proposes one) or `E <εd> <εA>`.
   Scalars in replies carry the prefix `d` so that the harness knows where a tolerance may apply.
@@ -143,6 +144,14 @@ def netlistOp (sqrt : α → α) (tiny : α) (op : String) (args : List String) 
       match loadWith sqrt tiny e t with
       | .error err => showErr err
       | .ok (n, _) => "ok " ++ showY (dumpNetlist n)
+  | "eps" => (runP (pY (α := α)) args).map fun t =>
+      -- the tolerance the netlist proposes when none is defined (`defaultEps` on the parsed modules)
+      match parseDoc t with
+      | .error err => showErr err
+      | .ok (ms, _) =>
+        match defaultEps sqrt tiny ms with
+        | none => "inf"
+        | some (d, a) => s!"{dsc d} {dsc a}"
   | "ident" => (runP (pY (α := α)) args).map fun v => b01 v.validIdent
   | _ => none
 
